@@ -1,7 +1,7 @@
 """C02 / C03 / C06 decision procedures (engine A over the real compiled gate list)."""
 import z3
 
-from .. import boolq, circ, corpus
+from .. import boolq, circ, corpus, corpus2
 from ..common import Stats, item_id, slice_quick
 
 RLIMIT = 50_000_000
@@ -28,8 +28,11 @@ def corpus_items(tier, seed, bool_only=False, uncompute_opts=(True, False)):
     selfif = corpus.u_selfif(full=True)
     if bool_only:
         selfif = [p for p in selfif if isb(p[1])]
-    core = small[:60] + ctl + unit[:: max(1, len(unit) // 60)][:60] + stale[::8] + selfif[4::12]
-    rest = small[60:] + rnd + multi + unit + repo + orand[::7] + prand + stale + selfif
+    p2 = corpus2.u_prog2(1500 if tier == "thorough" else 500)
+    if bool_only:
+        p2 = [p for p in p2 if isb(p[1])]
+    core = p2[:50] + small[:60] + ctl + unit[:: max(1, len(unit) // 60)][:60] + stale[::8] + selfif[4::12]
+    rest = p2[50:] + small[60:] + rnd + multi + unit + repo + orand[::7] + prand + stale + selfif
     specs = []
     seen = set()
 
